@@ -36,7 +36,7 @@ RULE = ("in-memory: all operation histories over 27 operations {append/insert-fi
         "length 3 (quick) / 4 (thorough) written to ~C, ~W and ~P, versions 1.2/2.0, re-read with "
         "mnemonic_case preserve/upper/lower; plus every corpus file. distinct = distinct reached "
         "(originals, session names, normalisation) state; non-trivial = state with a duplicate "
-        "family or a blank mnemonic Added later: reads with 0..3 surplus columns next to declared blank / UNKNOWN curves, blank-only and underscore / non-ASCII names, round trips with the names placed in ~Version.")
+        "family or a blank mnemonic Added later: reads with 0..3 surplus columns next to declared blank / UNKNOWN curves, blank-only and underscore / non-ASCII names, round trips with the names placed in ~Version. Hunter round 2: a duplicated NULL with a NaN sample to write, one twin of a duplicated table mnemonic deleted again (stale suffix on the survivor) x write(wrap=...).")
 ASSUMPTIONS = [
     "names containing ':' take part only in the in-memory histories (a header line cannot carry a colon inside a mnemonic)",
     "stale suffixes after a deletion (A:2 left alone) are allowed: the statement numbers families after insertions only",
